@@ -283,7 +283,7 @@ def gen_program(rng, idx, wild_p=0.25, n_ifaces=None, with_ce=None, replies_p=0.
         for _ in range(rng.randint(1, 3)):
             k = rng.choice(["exec", "exec", "query", "sudo"])
             nm = fresh_name(rng, fn_names, used_wire[k], wild_p)
-            ret = "resp" if k != "query" else rng.choice(["echo", "echo", "respb", "respc", "respb_explicit", "respb_as_c"])
+            ret = "resp" if k != "query" else rng.choice(QUERY_RET_KINDS)
             ms.append({"name": nm, "msg": {"kind": k}, "args": gen_args(rng), "ret_kind": ret, "ret_err": "self"})
         ifaces.append({"module": "ifc%d" % i, "name": "Ifc%d" % i, "methods": ms,
                        "alias": ("Alias%d" % i) if rng.random() < 0.3 else None})
@@ -318,7 +318,7 @@ def gen_program(rng, idx, wild_p=0.25, n_ifaces=None, with_ce=None, replies_p=0.
         if nm is None:
             nm = fresh_name(rng, fn_names, used_wire[k], wild_p)
         args = gen_args(rng)
-        cms.append({"name": nm, "msg": {"kind": k}, "args": args, "ret_kind": "resp" if k != "query" else rng.choice(["echo", "echo", "respb", "respc", "respb_explicit", "respb_as_c"]),
+        cms.append({"name": nm, "msg": {"kind": k}, "args": args, "ret_kind": "resp" if k != "query" else rng.choice(QUERY_RET_KINDS),
                     "ret_err": rng.choice(["std", "ce"]) if ce else "std"})
     if rng.random() < 0.5:
         mig_name = rng.choice([n for n in ["mig_rate", "mig_rate", "upgrade2", "migrate_v3"] if n not in fn_names])
@@ -363,9 +363,11 @@ def err_ty_text(m, contract):
 
 
 # the response type a query *declares* (what the query-response table must name) ...
-RESP_TYPES = {"echo": "EchoResp", "respb": "RespB", "respc": "RespC", "respb_explicit": "RespB", "respb_as_c": "RespC"}
+RESP_TYPES = {"echo": "EchoResp", "respb": "RespB", "respc": "RespC", "respb_explicit": "RespB", "respb_as_c": "RespC", "str": "String", "bin": "Binary"}
 # ... and the type the handler's signature returns (`respb_as_c`: an explicit resp= naming another type than the signature)
-BODY_TYPES = {"echo": "EchoResp", "respb": "RespB", "respc": "RespC", "respb_explicit": "RespB", "respb_as_c": "RespB"}
+BODY_TYPES = {"echo": "EchoResp", "respb": "RespB", "respc": "RespC", "respb_explicit": "RespB", "respb_as_c": "RespB", "str": "String", "bin": "Binary"}
+# `str` / `bin`: the echo returned as a plain String / as Binary — the JSON encoding of the returned value is then a string, not an object
+QUERY_RET_KINDS = ["echo", "echo", "respb", "respc", "respb_explicit", "respb_as_c", "str", "bin"]
 
 
 def ret_ty(m, contract):
@@ -430,7 +432,12 @@ def handler_body(part, m):
         else:
             lines.append("Ok(resp_of(attrs))")
     else:
-        lines.append("Ok(%s::from(attrs))" % BODY_TYPES[m["ret_kind"]])
+        if m["ret_kind"] == "str":
+            lines.append("Ok(show_pairs(&attrs))")
+        elif m["ret_kind"] == "bin":
+            lines.append("Ok(Binary::from(show_pairs(&attrs).into_bytes()))")
+        else:
+            lines.append("Ok(%s::from(attrs))" % BODY_TYPES[m["ret_kind"]])
     return " ".join(lines)
 
 
